@@ -13,8 +13,9 @@ Line protocol of C19.
   c19.ext <doctree>       →  T= M= D=   (tabula.Extractor: Text, ToMarkdown, Document)
   c19.epub <t|m> <int> <doctree>…  →  hex of epubdoc TextWithOptions / MarkdownWithOptions
   c19.src <int> <doctree> →  hex of squeeze (srcOf m doc): the specification's source text
-  c19.want <int> <doctree> → hex of squeeze (wantOf m doc) — the text the property asks for — or "mixed" when
-                             some p has a block-level child and non-blank text of its own (noMixed fails)
+  c19.want <int> <doctree> → hex of squeeze (wantOf m doc) — the text the property asks for — or "wrapped" when
+                             some p with a block-level child has a child with text that is neither block-level nor
+                             inline content (noWrapped fails)
   c19.blk <int> <doctree> →  the specification `blocksOf` (tables whole, item kinds) of the clamped mode
   c19.deeper <limit> <doctree> → 1 | 0    treeDeeperThan(doc, limit), any limit ≥ 0 (hook VerifTreeDeeperThan)
   c19.limit               →  maxTreeDepth (hook VerifMaxTreeDepth)
@@ -270,7 +271,7 @@ def handleApi (op : String) (args : List String) : String :=
     | _, _ => "bad-op"
   | "c19.want", [m, tree] =>
     match m.toInt?, parseTree tree with
-    | some m, some doc => if noMixed (bodyOf doc) then hexS (squeeze (wantOf m doc)) else "mixed"
+    | some m, some doc => if noWrapped (bodyOf doc) then hexS (squeeze (wantOf m doc)) else "wrapped"
     | _, _ => "bad-op"
   | "c19.src", [m, tree] =>
     match m.toInt?, parseTree tree with
